@@ -23,12 +23,44 @@ def fact(tr, t):
 
 
 def qos_of(tr, resp):
-    """QoS branch of a PUBLISH-handler path from its facts: 0/1/2 or None."""
+    """QoS branch of a PUBLISH-handler path from its facts: 0/1/2 or None.  The facts are read as constraints on the value -
+    equalities and inequalities with a constant, the truth of the value itself, disjunctions of equalities (qos == 1 or
+    qos == 0) - and the branch is the one value of 0..2 they leave (None when they leave several)."""
     facts = tr.path.st.facts if tr.path.st is not None else {}
     q = ("net", resp, "qos")
     for k in (0, 1, 2):
         if facts.get(("cmp", "==", q, ("const", k))) is True or facts.get(("cmp", "!=", q, ("const", k))) is False:
             return k
+    cand = {0, 1, 2, 3}        # (3 is a value the two bits can take: a path that also covers it is not "the QoS 2 branch")
+
+    def eqs(t):
+        """the constants of a term `q == a or q == b ..`, or None"""
+        if isinstance(t, tuple) and t[:1] == ("cmp",) and t[1] == "==" and t[2] == q and isinstance(t[3], tuple) and t[3][:1] == ("const",):
+            return {t[3][1]}
+        if isinstance(t, tuple) and t[:2] == ("boolop", "Or"):
+            out = set()
+            for x in t[2]:
+                e = eqs(x)
+                if e is None:
+                    return None
+                out |= e
+            return out
+        if isinstance(t, tuple) and t[:1] == ("cmp",) and t[1] == "in" and t[2] == q and isinstance(t[3], tuple) and t[3][:1] == ("const",) \
+                and isinstance(t[3][1], (tuple, list, set, frozenset)):
+            return set(t[3][1])
+        return None
+    for k_, v in facts.items():
+        if v not in (True, False):
+            continue
+        e = eqs(k_)
+        if e is not None:
+            cand = (cand & e) if v else (cand - e)
+        if isinstance(k_, tuple) and k_[:1] == ("cmp",) and k_[1] == "!=" and k_[2] == q and isinstance(k_[3], tuple) and k_[3][:1] == ("const",):
+            cand = (cand - {k_[3][1]}) if v else (cand & {k_[3][1]})
+        if k_ == ("truthy", q) or k_ == q:
+            cand = (cand - {0}) if v else (cand & {0})
+    if len(cand) == 1 and next(iter(cand)) in (0, 1, 2):
+        return next(iter(cand))
     if facts.get(("truthy", q)) is False:
         return 0
     return None
